@@ -6,7 +6,12 @@ import (
 	"net"
 	"strings"
 	"sync"
+	"sync/atomic"
 )
+
+// the model evaluates a late-reader download in several seconds and gigabytes: a few per run
+var lateReaderBudget int32 = 4
+var lateReaderUsed int32
 
 func genTCPConn(r *Rng, cfg []cfgKey, focus string) tcpConnSpec {
 	sp := tcpConnSpec{Kind: "honest", ConnectOK: true, Fin: r.Chance(55), Seed: uint32(r.U64()), Seg: r.Intn(3), TFirst: r.Bool()}
@@ -161,7 +166,8 @@ func genTCPConn(r *Rng, cfg []cfgKey, focus string) tcpConnSpec {
 		}
 		sp.Chunks, sp.Coalesce = nil, false
 	}
-	if sp.Kind == "honest" && sp.Corrupt == 0 && sp.ConnectOK && sp.Fin && !sp.TFinFirst && sp.AKind <= 3 && !sp.Validate && sel >= probeW+postW+dialW && (focus == "C02" && r.Chance(6) || r.Chance(1)) {
+	if sp.Kind == "honest" && sp.Corrupt == 0 && sp.ConnectOK && sp.Fin && !sp.TFinFirst && sp.AKind <= 3 && !sp.Validate && sel >= probeW+postW+dialW && (focus == "C02" && (r.Chance(6) || atomic.LoadInt32(&lateReaderUsed) == 0) || r.Chance(1)) && atomic.AddInt32(&lateReaderBudget, -1) >= 0 {
+		atomic.AddInt32(&lateReaderUsed, 1)
 		// a download far larger than the client's receive window to a client that starts reading
 		// late: the relay is over and the server has closed while most of it is still in its send buffer
 		sp.TOut = [2]int{400000 + r.Intn(3)*100000, int(r.U64() % 1000000)}
@@ -182,6 +188,9 @@ func genTCPConn(r *Rng, cfg []cfgKey, focus string) tcpConnSpec {
 
 // cTCP: whole connections through the real StreamHandler on loopback sockets.
 func cTCP(ctx *Ctx, prop string) {
+	if ctx.Thorough() {
+		atomic.StoreInt32(&lateReaderBudget, 16)
+	}
 	cTCPInto(ctx, prop, 0, 0)
 	if prop == "C15" {
 		tcpFailingTarget(ctx)
